@@ -41,7 +41,7 @@ OUTSIDE = ['free-running OS-thread interleavings and wall-clock bounds ("bounded
            'more than two deviations per history; more than three open_link attempts per object; radio/USB driver threads']
 EXPLANATION = 'C02 (restricted): callback grammar per attempt, no leaked lock / dead task / hang, reconnect works, for every position x kind of one or two deviations.'
 
-KINDS = ['none', 'error-from-driver', 'error-in-send', 'close_link', 'duplicate-reply', 'hold-reply', 'ping-first']
+KINDS = ['none', 'error-from-driver', 'error-in-send', 'close_link', 'duplicate-reply', 'hold-reply', 'ping-first', 'value-updated']
 NAMES = ('connection_requested', 'link_established', 'connected', 'fully_connected', 'disconnected', 'connection_lost',
          'connection_failed')
 
@@ -69,11 +69,29 @@ class World:
         cflib.crtp.CLASSES[:] = [self.DRIVER]
         self.cf = Crazyflie()
         self.ev = []
+        self.premature = []          # what was missing at the moment connected / fully_connected was signalled
         for n in NAMES:
-            getattr(self.cf, n).add_callback(lambda *a, n=n: self.ev.append(n))
+            getattr(self.cf, n).add_callback(lambda *a, n=n: self._record(n))
         self.pings = 0
         self.died = []
         self.steps = 0
+
+    def _record(self, n):
+        """Event log plus, at the moment of signalling, the state the statement promises: tables complete at connected, a value
+        for every parameter of the device at fully_connected (compared with the device tables of the oracle model)."""
+        self.ev.append(n)
+        cf, dev = self.cf, self.plan.device
+        if n in ('connected', 'fully_connected'):
+            for toc, table, what in ((cf.log.toc, dev.log.table, 'log'), (cf.param.toc, dev.par.table, 'param')):
+                for e in table:
+                    g, m = bytes(e.group).decode('latin-1'), bytes(e.name).decode('latin-1')
+                    if toc is None or toc.get_element_by_complete_name(f'{g}.{m}') is None:
+                        self.premature.append(f'{n} signalled while {what} entry {g}.{m} is not in the table')
+        if n == 'fully_connected':
+            for e in dev.par.table:
+                g, m = bytes(e.group).decode('latin-1'), bytes(e.name).decode('latin-1')
+                if m not in cf.param.values.get(g, {}):
+                    self.premature.append(f'fully_connected signalled while parameter {g}.{m} has no value')
 
     # ---- tasks
     def threads(self):
@@ -304,6 +322,12 @@ def _lifecycle(sym, w):
                     w.plan.dup_next = True
                 elif k == 'hold-reply':
                     w.plan.hold_next = True
+                elif k == 'value-updated':
+                    # the firmware announces a changed value of parameter 0 on its own (MISC_VALUE_UPDATED, protocol >= 4)
+                    if cf.link is not None and w.plan.device.version >= 4:
+                        from vf.env.c02_env import packet
+                        cf.link.rxq.append(packet(2, 3, [1, 0, 0, w.plan.device.values.get(0, 7)]))
+                        sym.goal('value-updated-notification')
                 elif k == 'ping-first':
                     if 'ping' in w.runnable():
                         w.step('ping')
@@ -324,6 +348,7 @@ def _lifecycle(sym, w):
     if w.plan.fault_task is not None:
         sym.goal('error-in-send:' + ('ping' if w.plan.fault_task == 'ping' else 'other'))
     attempts = check_word(w.ev)
+    assert not w.premature, w.premature
     a = attempts[0]
     faulted = errors_injected > 0 or w.plan.fault_task is not None
     if not faulted and closes == 0:
@@ -476,6 +501,13 @@ HARNESSES = [
             note='baton-scheduled real threads; parameter table with an extended (persistent) entry: extended-type fetcher thread'),
     Harness('threads[1,v1]', h_lifecycle, quick=dict(deviations=1, kinds=ALL, max_pos=40, params=2, version=3, threads=True),
             timeout=(900, 2400), symbolic=False, goals=('faulted', 'reconnected'), note='baton-scheduled real threads; legacy protocol generation'),
+    Harness('lifecycle[1,value-updated]', h_lifecycle, quick=dict(deviations=1, kinds=['value-updated'], max_pos=30, params=3),
+            thorough=dict(deviations=2, kinds0=['value-updated'], kinds=['value-updated', 'duplicate-reply', 'hold-reply'], max_pos=30, params=3),
+            timeout=(600, 1800), symbolic=False, goals=('value-updated-notification', 'fully-connected', 'reconnected'),
+            note='the firmware announces a changed parameter value on its own at a solver-chosen step of the connection sequence'),
+    Harness('threads[1,value-updated]', h_lifecycle, quick=dict(deviations=1, kinds=['value-updated'], max_pos=40, params=3, threads=True),
+            timeout=(900, 2400), symbolic=False, goals=('value-updated-notification', 'fully-connected', 'reconnected'),
+            note='baton-scheduled real threads; unsolicited value notification at a solver-chosen step'),
     Harness('lifecycle[1,observer]', h_lifecycle, quick=dict(deviations=1, kinds=['none', 'error-from-driver', 'error-in-send', 'close_link'], max_pos=16, observer=True),
             timeout=(900, 2400), symbolic=False, goals=('late-observer', 'reconnected'),
             note='as lifecycle[1,v2] plus an application observer subscribing at a solver-chosen step'),
